@@ -97,3 +97,92 @@ func H_C07_TimerReset() {
 	vAssert(f.ev.unlocked == 0, "c07.timer-callbacks-under-node-lock")
 	vCover("c07.timer-reset")
 }
+
+func init() {
+	vRegister("H_C07_Sequence", H_C07_Sequence)
+}
+
+// C07 over short histories: after every step the set obtained by replaying the delivered join/leave events is
+// exactly Members(); no member joins twice without leaving, none leaves without having joined. Steps: claims
+// about a peer and about ourselves (gossip or push/pull), a concurrent Leave raising its flag, Leave itself,
+// suspicion timers expiring, reaping, a self-announcement.
+func H_C07_Sequence() {
+	conf := vBaseConfig()
+	conf.GossipToTheDeadTime = 5 * time.Second
+	f := vNewML(conf)
+	m := f.m
+	me := f.vAddSelf(5, []byte{1})
+	f.vAddConcreteAlive(vPeerB, 3)
+	replay := map[string]bool{vSelf: true, vPeerB: true}
+	if vPick(2) == 1 {
+		f.vAddConcreteAlive(vPeerA, 2).Incarnation = 5
+		replay[vPeerA] = true
+	}
+	if vPick(2) == 1 {
+		m.leave.Store(1) // the history may begin inside a Leave call that has just raised its flag
+	}
+	seen := 0
+	steps := 2 + vTier()
+	for i := 0; i < steps; i++ {
+		op := vPick(8)
+		switch op {
+		case 0, 1:
+			target := []string{vPeerA, vSelf}[op]
+			inc := uint32(4 + vPick(4))
+			kind := vPick(3)
+			c := &vClaim{kind: kind, inc: inc, from: []string{vPeerB, target}[vPick(2)], merge: vPick(2) == 1}
+			if kind == 0 {
+				c.addr, c.port = []byte{10, 0, 0, 2}, 7946
+				if target == vSelf {
+					c.addr = []byte{10, 0, 0, 1}
+				}
+				c.meta = [][]byte{nil, {9}}[vPick(2)]
+				c.vsn = []uint8{1, 5, 2, 0, 0, 0}
+				c.mstate = StateAlive
+			} else if kind == 1 {
+				c.mstate = StateSuspect
+			} else {
+				c.mstate = StateDead
+				if c.from == target {
+					c.mstate = StateLeft
+				}
+			}
+			f.vDeliver(target, c)
+		case 2:
+			m.leave.Store(1) // a concurrent Leave has raised its flag
+		case 3:
+			_ = m.Leave(10 * time.Millisecond)
+		case 4:
+			vAdvance(40 * time.Second) // every pending suspicion timer expires
+		case 5:
+			vAdvance(6 * time.Second)
+			m.resetNodes()
+		case 6:
+			if !m.hasLeft() {
+				a := alive{Incarnation: m.nextIncarnation(), Node: vSelf, Addr: me.Addr, Port: me.Port, Meta: []byte{byte(2 + i)}, Vsn: conf.BuildVsnArray()}
+				m.aliveNode(&a, nil, true)
+			}
+		case 7:
+			// a new member shows up by push/pull
+			m.mergeState([]pushNodeState{{Name: vPeerA, Addr: []byte{10, 0, 0, 2}, Port: 7946, Incarnation: 8, State: StateAlive, Vsn: []uint8{1, 5, 2, 0, 0, 0}}})
+		}
+		for ; seen < len(f.ev.log); seen++ {
+			e := f.ev.log[seen]
+			switch e.kind {
+			case 1:
+				vAssert(!replay[e.name], "c07.seq.no-join-without-intervening-leave")
+				replay[e.name] = true
+			case 2:
+				vAssert(replay[e.name], "c07.seq.no-leave-without-join")
+				replay[e.name] = false
+			case 3:
+				vAssert(replay[e.name], "c07.seq.update-only-for-members")
+			}
+		}
+		for _, name := range []string{vSelf, vPeerA, vPeerB} {
+			vAssert(replay[name] == f.vIsMember(name), "c07.seq.event-log-equals-members")
+		}
+		vAssert(f.ev.unlocked == 0, "c07.seq.callbacks-under-node-lock")
+	}
+	vCover("c07.seq")
+}
